@@ -39,9 +39,8 @@ def _dnf(g):
     the site is reached under (other guards and A) or (other guards and B and C)."""
     outs = [[]]
     for x in g:
-        m = re.match(r'^true-when\{(.*)\} not in \[0\]$', x)
-        if m and 'true-when{' not in m.group(1):
-            arms = [a.split(' & ') for a in m.group(1).split(' | ')]
+        arms = paths.computed_bool_arms(x)
+        if arms:
             outs = [o + a for o in outs for a in arms]
         else:
             outs = [o + [x] for o in outs]
